@@ -407,7 +407,9 @@ fn random_component(rng: &mut StdRng, section: usize, used: &mut Vec<String>) ->
 pub fn random_schema(rng: &mut StdRng) -> Value {
     let mut used = vec![];
     let mut sec = |rng: &mut StdRng, which: usize| -> Vec<Value> {
-        let n = rng.gen_range(0..5);
+        // mostly short sections; one in four is long (more integer components than major.minor.patch can take,
+        // literals and text in between)
+        let n = if rng.gen_bool(0.25) { rng.gen_range(5..9) } else { rng.gen_range(0..5) };
         let mut v: Vec<Value> = (0..n).map(|_| random_component(rng, which, &mut used)).collect();
         if which == 0 && rng.gen_bool(0.9) {
             // sort the primary variables into major, minor, patch order, in place
